@@ -10,7 +10,7 @@ sys.path.insert(0, V); sys.dont_write_bytecode = True
 FILE_PROPS = {
     'openfilter/filter_runtime/zeromq.py': ['C01', 'C02', 'C03', 'C04', 'C05', 'C06', 'C07', 'C09', 'C12', 'C08'],
     'openfilter/filter_runtime/mq.py': ['C01', 'C02', 'C03', 'C08', 'C09'],
-    'openfilter/filter_runtime/filter.py': ['C03', 'C08', 'C12', 'C15', 'C18'],
+    'openfilter/filter_runtime/filter.py': ['C03', 'C08', 'C12', 'C15', 'C16', 'C18'],
     'openfilter/filter_runtime/frame.py': ['C09', 'C10'],
     'openfilter/filter_runtime/rolllog.py': ['C13', 'C14'],
     'openfilter/filter_runtime/utils.py': ['C15', 'C08'],
